@@ -11,6 +11,7 @@ CONSTANTS
  Withs = {TRUE, FALSE}
  Chunks = {5}
  LyingSizes = FALSE
+ LieMax = 1
  InlineData = FALSE
  Conc = 3
  Probes = FALSE
@@ -19,6 +20,7 @@ CONSTANTS
  TarUnverified = FALSE
  MTs = {TRUE, FALSE}
  DigestHdrs = {"absent", "echo", "served", "servedother", "garbage"}
+ Trailers = {FALSE}
  Sts = {"std"}
  DropKinds = {"ueof"}
 INIT GInit
